@@ -447,6 +447,53 @@ def setup_requests():
     return r
 
 
+PREDEFINED = {"def-cal": {"tag": "VCALENDAR"}, "def-adr": {"tag": "VADDRESSBOOK"}}
+FIRST_METHODS = ["GET", "HEAD", "PROPFIND", "REPORT", "OPTIONS", "POST", "PUT", "DELETE", "MOVE", "PROPPATCH", "MKCOL",
+                 "MKCALENDAR"]
+
+
+def first_login_request(method, user, rng=None):
+    """`method` as the very first request of the fresh user `user`: the gate creates /user/ and the configured
+    predefined collections under the exclusive lock before the handler runs."""
+    import random as _random
+    rng = rng or _random.Random(0)
+    L, home = user + ":", "/%s/" % user
+    r = dict(method=method, login=L, path=home, headers={})
+    if method == "PROPFIND":
+        r["data"] = propfind_body("allprop", rng)
+        r["headers"]["HTTP_DEPTH"] = "1"
+    elif method == "REPORT":
+        r["path"] = home + "def-cal/"
+        r["data"] = report_body(rng.choice(["sync", "freebusy", "query"]), rng)
+    elif method == "POST":
+        r["data"] = "x"
+    elif method == "PUT":
+        r["path"] = home + "def-cal/first.ics"
+        r["data"] = ev("first-" + user, 3)
+    elif method == "DELETE":
+        r["path"] = home + "def-adr/"
+    elif method == "MOVE":
+        r["path"] = home + "def-cal/none.ics"
+        r["headers"].update(HOST)
+        r["headers"]["HTTP_DESTINATION"] = "http://127.0.0.1" + home + "def-cal/x.ics"
+    elif method == "PROPPATCH":
+        r["path"] = home + "def-cal/"
+        r["data"] = PROPPATCH_OK % 1
+    elif method in ("MKCOL", "MKCALENDAR"):
+        r["path"] = home + "mine/"
+    elif method in ("GET", "HEAD"):
+        r["path"] = home + "def-cal/"
+    if not r["headers"]:
+        del r["headers"]
+    r["kind"] = "first-login"
+    return r
+
+
+def first_login_block(tag):
+    """Every method once as the first request of a new user (deterministic)."""
+    return [first_login_request(m, "f%s%d" % (tag, i)) for i, m in enumerate(FIRST_METHODS)]
+
+
 def gen_requests(rng, n, read_only=False):
     """Seeded mix over all methods, success and error exits, both REPORT kinds with early unlock."""
     L = "u:"
@@ -531,15 +578,11 @@ def gen_requests(rng, n, read_only=False):
         elif m == "MKCALENDAR":
             r["path"] = rng.choice(["/u/newcal%d/" % (k % 6), "/u/cal/", "/u/missing/sub/", "/u/cal/sub/"])
             r["data"] = rng.choice([None, None, "<bad"])
-        elif m == "LOGIN":     # first request of a fresh user: the gate creates the home under the exclusive lock
-            r["method"] = rng.choice(["GET", "PROPFIND", "OPTIONS"])
-            r["login"] = "w%d:" % k
-            r["path"] = "/w%d/" % k
-            if r["method"] == "PROPFIND":
-                r["data"] = propfind_body("prop", rng)
-        if not r["headers"]:
+        elif m == "LOGIN":     # first request of a fresh user: the gate creates the home (+ predefined collections)
+            r = first_login_request(rng.choice(FIRST_METHODS), "w%d" % k, rng)
+        if "headers" in r and not r["headers"]:
             del r["headers"]
-        r["kind"] = "gen"
+        r.setdefault("kind", "gen")
         out.append(r)
     return out
 
